@@ -41,3 +41,43 @@ s = open(p).read()
 s = re.sub(r'<!-- BENIGN-BEGIN -->.*?<!-- BENIGN-END -->', '<!-- BENIGN-BEGIN -->\n' + table + '<!-- BENIGN-END -->', s, flags=re.S)
 open(p, 'w').write(s)
 print(len(rows), "benign refactorings")
+
+# ---- section 13.9: mutation sweeps
+import collections
+triage = {}
+if glob.glob('/verif/mutants/triage.json'):
+    triage = json.load(open('/verif/mutants/triage.json'))
+per = collections.OrderedDict()
+missed = []
+for f in sorted(glob.glob('/verif/mutants/*/results.jsonl')):
+    for l in open(f):
+        try:
+            r = json.loads(l)
+        except Exception:
+            continue
+        d = per.setdefault(r['file'], collections.Counter())
+        d['mutants'] += 1
+        if r['status'] == 'survives-tests':
+            d['survive the tests'] += 1
+            if r.get('caught'):
+                d['caught'] += 1
+            else:
+                d['missed'] += 1
+                missed.append(r)
+        else:
+            d[r['status']] += 1
+t = "| file | mutants | do not compile | killed by the unit tests | survive the tests | caught by the checks | missed |\n|---|---|---|---|---|---|---|\n"
+for f, d in per.items():
+    t += f"| {f} | {d['mutants']} | {d['does-not-compile']} | {d['killed-by-tests']} | {d['survive the tests']} | {d['caught']} | {d['missed']} |\n"
+tot = collections.Counter()
+for d in per.values():
+    tot.update(d)
+t += f"| **total** | {tot['mutants']} | {tot['does-not-compile']} | {tot['killed-by-tests']} | {tot['survive the tests']} | {tot['caught']} | {tot['missed']} |\n\n"
+if missed:
+    t += "Survivors of both the tests and the checks, with the verdict of the manual triage:\n\n| mutant | change | checks run | verdict |\n|---|---|---|---|\n"
+    for r in missed:
+        t += f"| {r['id']} | `{r['old'][:70]}` → `{r['new'][:70]}` | {', '.join(r.get('checks', {}))} | {triage.get(r['id'], 'not yet triaged')} |\n"
+s = open(p).read()
+s = re.sub(r'<!-- MUTANTS-BEGIN -->.*?<!-- MUTANTS-END -->', lambda m: '<!-- MUTANTS-BEGIN -->\n' + t + '<!-- MUTANTS-END -->', s, flags=re.S)
+open(p, 'w').write(s)
+print(tot['mutants'], "mutants,", len(missed), "missed")
